@@ -25,6 +25,10 @@ RULE = (
     "under a matrix of hash seeds, locales, stdout encodings, cwd, -O/-I, TZ and pre-import sets. distinct = (sub-monitor, call "
     "descriptor | configuration); non-trivial = all."
 )
+RULE_ADDENDUM = (
+    'Additional: process-state panel (the same calls sensitive to interpreter-wide settings at the start and at the end of every shard, every kind of unrelated activity provoked in between); wrap aliasing through tuples.'
+)
+RULE = RULE + " " + RULE_ADDENDUM
 LIMITS = ["interleavings are sampled, not enumerated; C-level atomic sections cannot be split; no claim for free-threaded builds",
           "module-level container growth is logged as a hint only (a correctly keyed cache is legal)"]
 ASSUMPTIONS = ["exception classes are compared by qualified name across module instances"]
